@@ -390,7 +390,8 @@ def check_C16(ctx, rep):
             # guard of the stores
             if st_until:
                 rp = any(f[0] == 'btrue' and f[2] is True and action_field(f[1], 'BlockOutgoing', 'replace') for f in S)
-                later = any(f[0] == 'cmp' and f[5] is True and f[1] in ('lt', 'le') and contains(f[2], lambda x: side_state_field(x, 'blocking_until') is not None) and
+                # strictly later: an equal expiry does not "update" the blocking (and must not overwrite its bypass flag)
+                later = any(f[0] == 'cmp' and f[5] is True and f[1] == 'lt' and contains(f[2], lambda x: side_state_field(x, 'blocking_until') is not None) and
                             contains(f[3], lambda x: action_field(x, 'BlockOutgoing', 'duration')) for f in S)
                 rep.ob('C16.R1', ds, 'store-guard-is-replace-or-later-expiry', rp or later, '' if (rp or later) else show_facts(S))
                 for f in st_until:
@@ -939,6 +940,11 @@ def check_C18(ctx, rep):
                 return contains(e, lambda y: isinstance(y, tuple) and y and y[0] == 'fld' and y[3] == 'scheduled_internal_timer') and not is_new_expiry(e)
             later = any(f[0] == 'cmp' and f[1] == 'lt' and f[5] is True and is_running(f[2]) and is_new_expiry(f[3]) for f in S) or \
                 any(f[0] == 'cmp' and f[1] == 'le' and f[5] is False and is_new_expiry(f[2]) and is_running(f[3]) for f in S)
+            # comparison table: the running expiry is compared strictly (an equal expiry is not "later")
+            nonstrict = any(f[0] == 'cmp' and f[1] == 'le' and ((is_running(f[2]) and is_new_expiry(f[3])) or (is_new_expiry(f[2]) and is_running(f[3]))) and
+                            ((f[5] is True and is_running(f[2])) or (f[5] is False and is_new_expiry(f[2]))) for f in S)
+            if st and not replace and not no_timer:
+                rep.ob('C18.R3', tu, 'restart-needs-strictly-later-expiry', later and not nonstrict, 'a non-replacing update restarts a running timer only when running < new expiry')
             if replace or no_timer or later:
                 why = 'replace' if replace else ('no timer running' if no_timer else 'later expiry')
                 rep.ob('C18.R3', tu, 'timer-started-when:%s' % why.replace(' ', '-'), bool(st), '' if st else 'path with %s does not store the timer: %s' % (why, show_facts(S)))
